@@ -62,6 +62,9 @@ def run(prog, rep):
     rep.floor("C03.2", 1)
 
 
+# generic robustness battery: renaming every local/parameter in these files must not change any verdict
+RENAME_LOCALS = ['src/pcondvariable-posix.c']
+
 SELFTEST = [
     dict(id="broadcast-to-signal", file="src/pcondvariable-posix.c", expect="C03.1",
          old="if (P_UNLIKELY (pthread_cond_broadcast (&cond->hdl) != 0)) {", new="if (P_UNLIKELY (pthread_cond_signal (&cond->hdl) != 0)) {"),
